@@ -7,12 +7,14 @@ ROOT = os.path.dirname(os.path.dirname(os.path.abspath(__file__)))
 sys.path.insert(0, ROOT)
 from vlib import template
 cfg = json.load(open(os.path.join(ROOT, "units.json")))
+os.makedirs(os.path.join(ROOT, "baseline"), exist_ok=True)
 for name, u in cfg["units"].items():
     drops = set()
     shapes = {}
     trusted = {}
     derives = {}
     callees = {}
+    bodies = {}
     for prof in u.get("profiles", [{"name": "default", "defines": {}}]):
         d = dict(u.get("defines", {}), **prof.get("defines", {}))
         text, origins, log = template.build(os.path.join(ROOT, u["vc"]), os.environ.get("VERIF_REPO", "/repo"), d)
@@ -20,6 +22,8 @@ for name, u in cfg["units"].items():
         shapes.update(log.loop_shapes)
         trusted.update(log.trusted_text)
         derives.update(log.derives)
+        for q, tks in log.body_tokens.items():
+            bodies.setdefault(q, " ".join(tks))
         for q, c in log.callees.items():
             callees[q] = sorted(set(callees.get(q, [])) | set(c))
     u["expected_not_under_contract"] = sorted(drops)
@@ -27,5 +31,6 @@ for name, u in cfg["units"].items():
     u["expected_trusted_text"] = trusted
     u["expected_derives"] = derives
     u["expected_callees"] = callees
+    json.dump(bodies, open(os.path.join(ROOT, "baseline", "%s.bodies.json" % name), "w"), indent=0)
     print(name, len(drops))
 json.dump(cfg, open(os.path.join(ROOT, "units.json"), "w"), indent=1)
